@@ -398,10 +398,14 @@ def main(argv):
     except Infra as e:
         print("INFRA property=%s %s" % (a.prop, e), flush=True)
         shutil.rmtree(ctx.scratch, ignore_errors=True)
+        if ctx.repo != "/repo":
+            shutil.rmtree(ctx.builddir, ignore_errors=True)
         return 2
     except Exception as e:                                   # a bug in the check is never a violation
         import traceback
         traceback.print_exc()
         print("INFRA property=%s internal error: %s" % (a.prop, e), flush=True)
         shutil.rmtree(ctx.scratch, ignore_errors=True)
+        if ctx.repo != "/repo":
+            shutil.rmtree(ctx.builddir, ignore_errors=True)
         return 2
